@@ -33,9 +33,10 @@ Theorem C14_selector_expression_members : forall R (G : rng R) s x, sel_only x =
 Proof. exact sel_expr_members. Qed.
 Print Assumptions C14_selector_expression_members.
 
-(* ---- composition: ALL operator programs (induction on the expression) ------------------------------------ *)
+(* ---- composition: ALL operator programs (induction on the expression); [closedg]: the populations stored in the
+   global state (GlobalStateSetter / as_global_state) stay valid as well ------------------------------------------------ *)
 Theorem C14_composition_closed : forall R (G : rng R) s,
-  (forall p, closed s (run_prim R G s p)) -> forall x, closed s (eval R G s x).
+  (forall p, closed s (run_prim R G s p)) -> forall x, closedg s (eval R G s x).
 Proof. exact comp_closed. Qed.
 Print Assumptions C14_composition_closed.
 
@@ -130,7 +131,7 @@ Proof. exact prim_closed. Qed.
 Print Assumptions C14_primitives_closed.
 
 Theorem C14_expression_closed : forall R (G : rng R), rng_ok G -> forall s, wf s = true ->
-  forall x, closed s (eval R G s x).
+  forall x, closedg s (eval R G s x).
 Proof. exact expr_closed. Qed.
 Print Assumptions C14_expression_closed.
 
@@ -142,10 +143,10 @@ Print Assumptions C14_average_in_range_exact.
 
 (* the hypotheses are satisfiable and the model runs on them *)
 Theorem C14_example : wf s0 = true /\ pop_ok s0 pop0 /\
-  exists out st, eval unit first_rng s0 x0 pop0 (tt, 2) = Ok (out, st) /\ length out = 6 /\ pop_ok s0 out.
+  exists out st, eval unit first_rng s0 x0 pop0 ((tt, 2), []) = Ok (out, st) /\ length out = 6 /\ pop_ok s0 out.
 Proof.
   split. exact ex_wf. split. exact ex_pop_ok.
   destruct ex_eval as (out & st & He & Hl). exists out, st. split; auto. split; auto.
-  eapply (expr_closed unit first_rng first_rng_ok s0 ex_wf x0); eauto. exact ex_pop_ok.
+  eapply (expr_closed unit first_rng first_rng_ok s0 ex_wf x0 pop0 ((tt, 2), [])); eauto. exact ex_pop_ok. constructor.
 Qed.
 Print Assumptions C14_example.
